@@ -182,7 +182,8 @@ type recReq struct {
 	Body   []byte
 	Status int
 	Err    string
-	At     time.Time // when the round trip returned to the forwarder (recorded bracket, never a deadline)
+	At     time.Time     // when the round trip returned to the forwarder (recorded bracket, never a deadline)
+	Took   time.Duration // how long this attempt lasted inside the transport
 }
 
 type recorder struct {
@@ -199,7 +200,9 @@ func (rt *recorder) RoundTrip(req *http.Request) (*http.Response, error) {
 		req.Body = io.NopCloser(bytes.NewReader(body))
 	}
 	rec := recReq{Path: req.URL.Path, Enc: req.Header.Get("Content-Encoding"), Body: body}
+	began := time.Now()
 	resp, err := rt.base.RoundTrip(req)
+	rec.Took = time.Since(began)
 	if err != nil {
 		rec.Err = err.Error()
 	} else {
@@ -212,12 +215,26 @@ func (rt *recorder) RoundTrip(req *http.Request) (*http.Response, error) {
 	return resp, err
 }
 
-// timedOut reports whether a round trip of the forwarder ended in its own client timeout (10 s) or a cancelled
-// context: on an overloaded machine that is not an answer of the ingesting server, and whatever follows from
-// it (the forwarder trying again, a second dispatch) says nothing about the property.
+// forwarderClientTimeout is the timeout of the forwarder's HTTP client (transport pool default, set explicitly
+// by the harness in clientTimeoutViper).
+const forwarderClientTimeout = 10 * time.Second
+
+// clientTimeoutViper is the transport configuration every harness forwarder is built with.
+func clientTimeoutViper() *viper.Viper {
+	v := viper.New()
+	v.Set("transport.default.client-timeout", forwarderClientTimeout.String())
+	return v
+}
+
+// timedOut reports whether a round trip of the forwarder ended in its own client timeout: a deadline / cancel
+// error of an attempt that demonstrably lasted about as long as that timeout (measured around the transport
+// call). On an overloaded machine that is not an answer of the ingesting server, and what follows from it (the
+// forwarder trying again, a second dispatch) says nothing about the property. A deadline error that comes back
+// faster than that is a failed request like any other.
 func timedOut(recs []recReq) bool {
 	for _, q := range recs {
-		if q.Status == 0 && (strings.Contains(q.Err, "Client.Timeout") || strings.Contains(q.Err, "deadline exceeded") || strings.Contains(q.Err, "request canceled")) {
+		if q.Status == 0 && q.Took >= forwarderClientTimeout-time.Second &&
+			(strings.Contains(q.Err, "Client.Timeout") || strings.Contains(q.Err, "deadline exceeded") || strings.Contains(q.Err, "request canceled")) {
 			return true
 		}
 	}
@@ -272,7 +289,7 @@ func newRig(cfg compCfg, slots int) (*rig, error) {
 		defer g.inflight.Add(-1)
 		router.ServeHTTP(w, req)
 	}))
-	pool := transport.NewTransportPool(logger, viper.New())
+	pool := transport.NewTransportPool(logger, clientTimeoutViper())
 	cl, err := pool.Get("default")
 	if err != nil {
 		g.srv.Close()
